@@ -112,7 +112,7 @@ func checkC01(t core.TB, rec *core.Recorder, env *gen.Env, all *core.Set, p *cor
 	for _, m := range pc.Muts {
 		rec.Count("mut:" + m)
 	}
-	if len(pc.Muts) > 0 || pc.Origin == "kernels" {
+	if len(pc.Muts) > 0 || pc.Origin == "kernels" || pc.Origin == "fuzz" {
 		rec.Nontrivial(pc.Key())
 		rec.Sample("nontrivial", 3, progSample(pc, map[string]any{"diagnostics": nDiag}))
 	} else {
